@@ -4,13 +4,15 @@
 (* Consumes the ndjson file written by the harness crate c06 from the real *)
 (* RandomForestClassifier / RandomForestRegressor:                         *)
 (*                                                                         *)
-(*   ForestFit   {key, base, digest, status, in:{kind, n, p, X, nTrees, m, *)
-(*                maxDepth, msl, mss, crit, keep, seed}, obs}              *)
+(*   ForestFit   {key, base, digest, fdigest, status, in:{kind, n, p, X,   *)
+(*                Xq, y, nTrees, m, maxDepth, msl, mss, crit, keep, seed}, *)
+(*                obs}                                                     *)
 (*        one real fit (first of its key) with the complete observation    *)
 (*        record `obs` described in Forest.tla                             *)
-(*   ForestRefit {key, base, digest, status}                               *)
+(*   ForestRefit {key, base, digest, fdigest, status}                      *)
 (*        a later fit with the same data, parameters and seed: digest only *)
-(*   ForestObs   {status, obs, expect:{pred, oobStatus, oobFin, oob}}      *)
+(*   ForestObs   {status, obs, expect:{pred, oobStatus, oobFin, oob,       *)
+(*                                     y, treePred, mask}}                 *)
 (*        a forest assembled from a terminal state of the design model     *)
 (*        ForestAgg (member trees and membership bits chosen by TLC), run  *)
 (*        through the real predict / predict_oob; `expect` is what the     *)
@@ -87,8 +89,18 @@ StepRefit(e, clause) ==
     /\ seen' = FitEffect(seen, e.key, e.digest)
     /\ hits' = HitAll({IF e.key \in DOMAIN seen THEN "Refit" ELSE "FirstFit"})
 
-\* an assembled forest: aggregation clauses only
-ObsClause(e) == IF e.status # "ok" THEN "Assemble" ELSE FirstFail(e.obs, FALSE, FALSE)
+\* an assembled forest: aggregation clauses only.  "Assemble" is not a property clause:
+\* it says that the forest the harness put together is not the one the model asked for
+\* (member trees that do not predict what they were built to predict); the driver
+\* treats it as a tool error.
+AsAsked(e) == /\ e.obs.treePred = e.expect.treePred
+              /\ e.obs.y = e.expect.y
+              /\ e.obs.keep => e.obs.mask = e.expect.mask
+
+ObsClause(e) == IF e.status # "ok" THEN "Assemble"
+                ELSE IF ~(CountOK(e.obs) /\ ShapeOK(e.obs)) THEN FirstFail(e.obs, FALSE, FALSE)
+                ELSE IF ~AsAsked(e) THEN "Assemble"
+                ELSE FirstFail(e.obs, FALSE, FALSE)
 
 SameAsModel(e) == /\ e.obs.pred = e.expect.pred
                   /\ e.obs.oobStatus = e.expect.oobStatus
